@@ -46,18 +46,19 @@ fn ref_code_from_bytes(b: &[u8]) -> Code {
 
 // ---- H1 ---------------------------------------------------------------------------------------
 #[kani::proof]
-#[kani::unwind(5)]
+#[kani::unwind(18)]
 #[kani::stub(alloc::fmt::format, fmt_stub)]
 fn st_code_from_bytes() {
-    let raw: [u8; 3] = kani::any();
+    let raw: [u8; 16] = kani::any();
     let len: usize = kani::any();
-    kani::assume(len <= 3);
+    kani::assume(len <= 16);
     let got = Code::from_bytes(&raw[..len]);
     let want = ref_code_from_bytes(&raw[..len]);
     assert!(got == want, "C04: grpc-status text parsed to the wrong code");
     kani::cover!(len == 2 && got == Code::Unauthenticated, "two-digit code");
     kani::cover!(len == 1 && got == Code::NotFound, "one-digit code");
     kani::cover!(len == 2 && got == Code::Unknown, "malformed two bytes");
+    kani::cover!(len == 16, "long value");
 }
 
 #[kani::proof]
